@@ -11,6 +11,7 @@ extern int32_t rng_ival[RNG_LOG];
 extern double rng_sigma[RNG_LOG], rng_mean[RNG_LOG], rng_dval[RNG_LOG];
 extern int32_t rng_bad_engine;
 extern double rng_R;
+extern int32_t rng_epoch, rng_stale_used;
 }
 #define RNG_STUBS {"_ZNSt24uniform_int_distributionIiEclISt26linear_congruential_engineImLm16807ELm0ELm2147483647EEEEiRT_RKNS0_10param_typeE": "stub_uniform_int", \
                    "_ZNSt19normal_distributionIdEclISt26linear_congruential_engineImLm16807ELm0ELm2147483647EEEEdRT_RKNS0_10param_typeE": "stub_normal"}
